@@ -33,7 +33,7 @@ def P(pid):
             ('RF-A option-normalisation sign/verify', lambda c: rf_consts.rule_option_normalisation(c, [T.SIG + 'sign', T.SIG + 'verify']), 4),
             ('RF-B interface constants sign/verify', lambda c: rf_consts.rule_interface_constants(c, [T.SIG + 'sign', T.SIG + 'verify']), 8),
             ('A5 ciphersuite constants', rf_consts.rule_ciphersuite_constants, 30),
-            ('RF-T size thresholds (uniform behaviour in L / lengths)', rf_frame.rule_size_thresholds, 10),
+            ('RF-T size thresholds (uniform behaviour in L / lengths)', rf_frame.rule_size_thresholds, 3),
             ('RF-P accumulation loops cover every message', lambda c: rf_codec.rule_loop_coverage(c, fns=['bbsplus::signature::core_sign', 'bbsplus::signature::core_verify']), 2),
             ('RF-M generator offsets', rf_codec.rule_generator_offsets, 6),
         ]
@@ -48,7 +48,7 @@ def P(pid):
                 only_fns=hash_fns('calculate_domain', 'messages_to_scalar', 'map_message_to_scalar_as_hash', 'core_sign', 'hash_to_scalar')), 20),
             ('RF-D verify gates', lambda c: rf_gates.rule_accept_requirements(c, only(T.VERIFY_REQS, T.SIG + 'verify', T.BSIG + 'verify_blind_sign')), 2),
             ('RF-B interface constants', lambda c: rf_consts.rule_interface_constants(c, [T.SIG + 'verify', T.BSIG + 'verify_blind_sign']), 8),
-            ('RF-T size thresholds (uniform behaviour in L / lengths)', rf_frame.rule_size_thresholds, 10),
+            ('RF-T size thresholds (uniform behaviour in L / lengths)', rf_frame.rule_size_thresholds, 3),
             ('RF-D checked constructors only', rf_frame.rule_checked_constructors, 8),
             ('RF-P verification folds every message', lambda c: rf_codec.rule_loop_coverage(c, fns=['bbsplus::signature::core_verify']), 1),
             ('RF-D success values are computed from the inputs they bind', lambda c: rf_frame.rule_result_binding(c, only=['::sign']), 4),
@@ -66,7 +66,7 @@ def P(pid):
             ('RF-D identity exclusion', lambda c: rf_gates.rule_accept_requirements(c, only(T.IDENTITY_REQS, T.POK + 'proof_verify')), 3),
             ('RF-K every proof field gates', lambda c: rf_gates.rule_all_fields_gate(c, T.POK + 'proof_verify', 'self', 'BBSplusPoKSignature'), 8),
             ('RF-D checked constructors only', rf_frame.rule_checked_constructors, 8),
-            ('RF-T size thresholds (uniform behaviour in L / lengths)', rf_frame.rule_size_thresholds, 10),
+            ('RF-T size thresholds (uniform behaviour in L / lengths)', rf_frame.rule_size_thresholds, 3),
         ]
         meta['explanation'] = ('Necessary conditions of proof soundness: challenge ingredients must-flow, the challenge equality and the pairing '
                                'check gate every accept path and depend on every proof field and every public input, identity points are refused '
@@ -80,7 +80,7 @@ def P(pid):
             ('RF-D blind gates', lambda c: rf_gates.rule_accept_requirements(c, only(T.VERIFY_REQS, T.BSIG + 'blind_sign',
                 T.COM + 'deserialize_and_validate_commit', T.BSIG + 'verify_blind_sign', T.POK + 'blind_proof_verify')), 6),
             ('RF-B blind interface constants', lambda c: rf_consts.rule_interface_constants(c, BLIND_ENTRIES), 20),
-            ('RF-T size thresholds (uniform behaviour in L / lengths)', rf_frame.rule_size_thresholds, 10),
+            ('RF-T size thresholds (uniform behaviour in L / lengths)', rf_frame.rule_size_thresholds, 3),
             ('RF-D success values are computed from the inputs they bind', lambda c: rf_frame.rule_result_binding(c, only=['blind_sign']), 5),
         ]
         meta['explanation'] = ('Necessary conditions of blind soundness: blind_sign is control dependent on the commitment-proof challenge '
@@ -93,7 +93,7 @@ def P(pid):
             ('A5 ciphersuite constants', rf_consts.rule_ciphersuite_constants, 30),
             ('RF-C generator seeds', lambda c: rf_hash.rule_hash_binding(c, rf_hash.BBS_TABLE, BBS_SCOPE, only_fns=hash_fns('create_generators')), 10),
             ('RF-S no cache / shared state (generators are a pure function of count, api_id and the suite)', rf_consts.rule_shared_state, 3),
-            ('RF-T size thresholds (first k generators independent of count)', rf_frame.rule_size_thresholds, 10),
+            ('RF-T size thresholds (first k generators independent of count)', rf_frame.rule_size_thresholds, 3),
         ]
         meta['explanation'] = ('Domain separation decided as constant propagation: from every public entry point exactly the interface\'s '
                                'api id (and the BLIND_ prefix for blind generators) reaches every DST / seed role; the two suites differ in '
@@ -110,7 +110,7 @@ def P(pid):
             ('RF-B index normalisation', rf_codec.rule_index_normalisation, 3),
             ('RF-M generator offsets', rf_codec.rule_generator_offsets, 6),
             ('RF-P accumulation loops cover every message', lambda c: rf_codec.rule_loop_coverage(c, fns=['bbsplus::proof::proof_init', 'bbsplus::proof::proof_verify_init', 'bbsplus::proof::proof_finalize']), 8),
-            ('RF-T size thresholds (uniform behaviour in L / lengths)', rf_frame.rule_size_thresholds, 10),
+            ('RF-T size thresholds (uniform behaviour in L / lengths)', rf_frame.rule_size_thresholds, 3),
             ('RF-G2 role positions (prover)', rf_rand.rule_role_projection, 6),
             ('RF-F proof_gen panic census', lambda c: rf_panic.rule_panic_census(c, entries=[T.POK + 'proof_gen'], with_serde=False, min_functions=12), 40),
             ('RF-D success values are computed from the inputs they bind', lambda c: rf_frame.rule_result_binding(c, only=['::proof_gen']), 6),
@@ -130,7 +130,7 @@ def P(pid):
             ('RF-O production/mock twin agreement', rf_rand.rule_cfg_twins, 8),
             ('RF-P accumulation loops (commit / blind B)', lambda c: rf_codec.rule_loop_coverage(c, fns=['bbsplus::commitment::core_commit', 'bbsplus::commitment::core_commit_verify', 'bbsplus::blind::calculate_b']), 6),
             ('RF-G2 role positions (commit)', rf_rand.rule_role_projection, 6),
-            ('RF-T size thresholds (uniform behaviour in L / lengths)', rf_frame.rule_size_thresholds, 10),
+            ('RF-T size thresholds (uniform behaviour in L / lengths)', rf_frame.rule_size_thresholds, 3),
             ('RF-B index translation agreement', rf_codec.rule_index_translation, 2),
             ('RF-F blind generation panic census', lambda c: rf_panic.rule_panic_census(c, entries=[T.POK + 'blind_proof_gen', T.BSIG + 'blind_sign'], with_serde=False, min_functions=15), 60),
             ('RF-D success values are computed from the inputs they bind', lambda c: rf_frame.rule_result_binding(c, only=['blind_sign','commit','blind_proof_gen']), 15),
@@ -196,7 +196,7 @@ def P(pid):
             ('RF-L update_index guard and generator offset', rf_frame.rule_update_index_guard, 2),
             ('RF-B interface constants of update_signature', lambda c: rf_consts.rule_interface_constants(c, [T.SIG + 'update_signature', T.SIG + 'sign']), 6),
             ('RF-S no shared state (history quantifier)', rf_consts.rule_shared_state, 3),
-            ('RF-T size thresholds (uniform behaviour in L / lengths)', rf_frame.rule_size_thresholds, 10),
+            ('RF-T size thresholds (uniform behaviour in L / lengths)', rf_frame.rule_size_thresholds, 3),
 
             ('RF-F update_signature panic census', lambda c: rf_panic.rule_panic_census(c, entries=[T.SIG + 'update_signature'], with_serde=False, min_functions=8), 12),
             ('RF-D success values are computed from the inputs they bind', lambda c: rf_frame.rule_result_binding(c, only=['update_signature','::sign']), 9),
